@@ -119,12 +119,15 @@ F('vx_first_key', r'constexpr\s+const\s+term_subset&\s+make_right_side_slice_fir
 F('vx_empty_key', r'constexpr\s+bool\s+make_right_side_slice_empty\(const rule_info& ri,\s*size_t start\)', 'size_t vx_empty_key(const struct rule_info* ri, size_t start)', scope=SA,
   fragment=key_fragment(r'auto idx = ([^;]+);'), rules=[S(r'\bri\.', 'ri->')])
 
-PRELUDE = PC.types(2, 8, 4, 2, 4, 3) + r'''
+SMALL = os.environ.get('VX_UNIT_VARIANT') == 'small'
+# physical maxima: (states, symbols, rules, max rule length, terms incl. eof/error, nterms incl. root); `small` is used for closure in the quick tier
+SIZES = (2, 5, 3, 2, 3, 2) if SMALL else (2, 8, 4, 2, 4, 3)
+PRELUDE = PC.types(*SIZES) + ('#define VX_PH_SAS %d\n' % (27 if SMALL else 48)) + r'''
 int vx_thrown;
-#define VX_CAP 8
-''' + SX.cvector_struct('sitvec', 'size32_t') + SX.cbitset_struct() + r'''
+#define VX_CAP %d
+''' % (6 if SMALL else 8) + SX.cvector_struct('sitvec', 'size32_t') + SX.cbitset_struct() + r'''
 /* struct state { all_situations_vec; kernel; situations_by_symbol[symbol_count] } is lowered field by field (R3) */
-#define PH_SAS 48      /* physical situation address space (bits) */
+#define PH_SAS VX_PH_SAS      /* physical situation address space (bits) */
 #define PH_RSS 16      /* physical size of the right-side-slice memo tables */
 /* ---- parser / state_analyzer members (R3) ---- */
 struct grammar_info gi;
@@ -149,3 +152,9 @@ UNIT.enums = PC.ENUMS
 UNIT.facts = PC.FACTS + SX.CB_FACTS
 UNIT.typedefs = PC.RT_TYPEDEFS
 apply_spec(UNIT.fns, os.path.join(HERE, '..', 'contracts', 'state_analyzer.spec'))
+if SMALL:
+    for f in UNIT.fns:          # the small variant exists for closure only
+        if f.name != 'closure':
+            f.harness = None
+        else:
+            f.tier = 'quick'
